@@ -6,6 +6,7 @@ set -u
 export GOFLAGS=-mod=mod GOPROXY=off GOSUMDB=off GOTOOLCHAIN=local
 cd "$(dirname "$0")"
 for d in seeded/${1:-*}/; do
+  d="$PWD/${d%/}"
   n=$(basename "$d"); [ -f "$d/meta.json" ] || continue
   ids=$(python3 -c "
 import json;d=json.load(open('$d/meta.json'));print(' '.join(c['check'] for c in d['checks'] if c.get('detected')))")
@@ -15,7 +16,7 @@ import json;d=json.load(open('$d/meta.json'));print(' '.join(c['check'] for c in
   if [ -f "$d/patch.head.diff" ] && git -C "$WT" apply "$d/patch.head.diff" 2>/dev/null; then
     : # the same change ported to HEAD after a later fix: commit touched its lines
   elif ! git -C "$WT" apply "$d/patch.diff" 2>/dev/null; then
-    if ! (cd "$WT" && patch -p1 -s --no-backup-if-mismatch < "$OLDPWD/$d/patch.diff" >/dev/null 2>&1); then
+    if ! (cd "$WT" && patch -p1 -s --no-backup-if-mismatch < "$d/patch.diff" >/dev/null 2>&1); then
       echo "$n: STALE (patch does not apply to HEAD)"; git -C /repo worktree remove --force "$WT"; continue
     fi
   fi
